@@ -315,8 +315,13 @@ def faulty_file(r):
             if not idx:
                 continue
             i = r.choice(idx)
+            good = f.lines[i].strip()
+            body = good[1:-1] if good.startswith("[") and good.endswith("]") else "mtu"
             f.lines[i] = r.choice(["[tcp]", "[http]", "[mtu:request]", "[mtu:]x", "[tcp:requests]", "[tcp:request", "[", "[]", "[tcp:request:x]", "[TCP:request]", "[udp:request]",
-                                   "[tcp:]", "[:request]", "[tcp request]", "[mtu]x", "[tcp:request]]x", "[mtu ]", "[ mtu]"])
+                                   "[tcp:]", "[:request]", "[tcp request]", "[mtu]x", "[tcp:request]]x", "[mtu ]", "[ mtu]",
+                                   # surplus / stray brackets around an otherwise well-formed header (the header of this very line)
+                                   f"[[{body}]", f"[{body}]]", f"[[{body}]]", f"[]{body}]", f"[{body}[]", f"[[{body}", f"[{body}][", f"[[[{body}]]]",
+                                   f"[[{body}]", f"[{body}]]", f"[[{body}]]", f"[]{body}]"])
             return f, i + 1, "section"
         if k < 0.85:
             # an unknown parameter / junk line inserted anywhere
